@@ -240,6 +240,7 @@ class Sim(object):
         self.cb_serial = 0
         self.in_cb = False
         self._probing = False
+        self._all_watchers = []
         self.config_file = config_file
         self.arb = None
         self._build()
@@ -258,7 +259,8 @@ class Sim(object):
                   send_hup=spec["send_hup"], on_demand=spec["on_demand"],
                   hooks=hooks or None, loop=self.io)
         kw.update(spec.get("extra", {}))
-        return circus.watcher.Watcher(spec["name"], spec.get("cmd", "simworker " + spec["name"]), **kw)
+        import shlex
+        return circus.watcher.Watcher(spec["name"], spec.get("cmd", "simworker " + shlex.quote(spec["name"])), **kw)
 
     def _build(self):
         ws = [self.make_watcher(s) for s in self.wspecs]
@@ -281,7 +283,7 @@ class Sim(object):
                 "wg": int(round(self.warmup_delay * 1000)),
                 "cdt": int(round(self.check_delay * 10)) if self.check_delay > 0 else -1,
                 "wgt": int(round(self.warmup_delay * 10)),
-                "ws": [{"n": s["name"], "np": s["np"], "G": int(round(s["G"] * 1000)),
+                "ws": [{"n": s["name"], "ln": s["name"].lower(), "np": s["np"], "G": int(round(s["G"] * 1000)),
                         "Gp": self.polls(s["G"]), "Wt": int(round(s["W"] * 10)), "retry": s["max_retry"],
                         "W": int(round(s["W"] * 1000)), "sing": bool(s["singleton"]),
                         "resp": bool(s["respawn"]), "auto": bool(s["autostart"]), "prio": s["priority"],
@@ -354,7 +356,14 @@ class Sim(object):
             if id(w) in seen:
                 continue
             seen.add(id(w))
+            if not any(w is x for x in self._all_watchers):
+                self._all_watchers.append(w)
             ws.append(self.project_watcher(w))
+        # a watcher removed from the directory stays observable while it still has workers or is not stopped
+        for w in self._all_watchers:
+            if id(w) not in seen and (w.processes or w._status != "stopped") \
+                    and not getattr(w, "_verif_released", False):     # rm nostop: no longer the daemon's business
+                ws.append(self.project_watcher(w))
         return {"slot": arb._exclusive_running_command or "",
                 "stopping": bool(arb._stopping), "restarting": bool(arb._restarting),
                 "wl": [w.name for w in arb.watchers],
@@ -555,13 +564,26 @@ class Sim(object):
              if isinstance(pr.get("options"), dict) and "numprocesses" in pr["options"] else -99,
              "nostop": bool(pr.get("nostop")), "graceful": bool(pr.get("graceful", True)),
              "sequential": bool(pr.get("sequential")), "start": bool(pr.get("start")),
-             "raw": raw_given}
+             "raw": raw_given,
+             "addnp": _i((pr.get("options") or {}).get("numprocesses", 1), 1) if isinstance(pr.get("options"), dict) else 1,
+             "addGp": self.polls(float((pr.get("options") or {}).get("graceful_timeout", 30.0)))
+             if isinstance(pr.get("options"), dict) and isinstance((pr.get("options") or {}).get(
+                 "graceful_timeout", 30.0), (int, float)) else 300,
+             "addWt": int(round(float((pr.get("options") or {}).get("warmup_delay", 0)) * 10))
+             if isinstance(pr.get("options"), dict) and isinstance((pr.get("options") or {}).get(
+                 "warmup_delay", 0), (int, float)) else 0,
+             "addsing": bool((pr.get("options") or {}).get("singleton")) if isinstance(pr.get("options"), dict) else False}
         self.rec("req", x=cidn, r=str(cmd), w=str(pr.get("name", "")), a=1 if pr.get("waiting") else 0,
                  q=q)
         self.block_counts = {}
         self.in_cb = True
+        rel = None
+        if cmd == "rm" and pr.get("nostop") and isinstance(pr.get("name"), str):
+            rel = self.arb._watchers_names.get(pr["name"].lower())
         try:
             self.arb.ctrl.handle_message([cidn.encode("latin1"), raw])
+            if rel is not None and not any(rel is w for w in self.arb.watchers):
+                rel._verif_released = True
         except BaseException as e:
             self.exceptions.append(repr(e))
             self.rec("exc", x=type(e).__name__)
